@@ -177,6 +177,21 @@ def curated_behaviour():
         ('C', 'enum', [('A', ('tuple', [(True, N('A'))])), ('B', ('tuple', [(True, N('B'))]))]),
         ('A', 'struct', [(None, ('tuple', [(True, T('X')), (True, T('Y'))]))]),
         ('B', 'struct', [(None, ('tuple', [(True, T('X')), (True, T('Z'))]))])]))
+    # a state with a transition to itself that brings a new lookahead (prefix operator + postfix context): * * x ! !
+    specs.append(G('Deref', [('Star', '()'), ('Bang', '()'), ('Ident', 'u32')], [
+        ('Deref', 'struct', [(None, ('tuple', [(False, T('Star')), (True, N('Operand'))]))]),
+        ('Operand', 'enum', [('Checked', ('tuple', [(True, N('Deref')), (False, T('Bang'))])), ('Var', ('tuple', [(True, T('Ident'))]))])]))
+    # the user's own tokens / types named like the generator's helper items (end-of-input marker included)
+    specs.append(G('File', [('Num', 'u32'), ('Eof', '()')], [
+        ('File', 'struct', [(None, ('named', [('lines', N('Lines')), (None, T('Eof'))]))]),
+        ('Lines', 'enum', [('Nil', ('empty',)), ('Cons', ('tuple', [(True, N('Lines')), (True, T('Num'))]))])]))
+    specs.append(G('Node', [('State', 'u32'), ('Action', '()'), ('Quasiterminal', 'u32')], [
+        ('Node', 'enum', [('Leaf', ('tuple', [(True, T('State'))])), ('Pair', ('tuple', [(True, N('Node')), (False, T('Action')), (True, N('RuleKind'))]))]),
+        ('RuleKind', 'struct', [(None, ('named', [('q', T('Quasiterminal'))]))])]))
+    # two terminals that differ only in letter case, with different payload types
+    specs.append(G('Stmt', [('Id', 'u32'), ('ID', '()'), ('Hash', '()'), ('Eq', '()')], [
+        ('Stmt', 'enum', [('Lookup', ('named', [(None, T('Hash')), ('id', T('ID'))])),
+                          ('Assign', ('named', [('name', T('Id')), (None, T('Eq')), ('val', T('ID'))]))])]))
     return specs
 
 
@@ -501,12 +516,15 @@ def behaviour_check(ctx, pid):
                 # attribute the failure to the property it violates
                 acc_want, acc_got = want.startswith('Ok('), got.startswith('Ok(')
                 if got.startswith('panic') or got == 'missing' or acc_want != acc_got:
-                    kind = 'C01'
+                    # no verdict where one was due breaks C01, and also the property that says what the verdict's payload is:
+                    # a sentence that yields no tree (C02), a non-sentence that yields no Err(..) (C03)
+                    kinds = {'C01', 'C02' if acc_want else 'C03'}
                 elif acc_want:
-                    kind = 'C02'
+                    kinds = {'C02'}
                 else:
-                    kind = 'C03'
-                if kind == pid:
+                    kinds = {'C03'}
+                if pid in kinds:
+                    kind = pid
                     res.failures.append(dict(kind={'C01': 'wrong-acceptance-or-panic', 'C02': 'wrong-tree', 'C03': 'wrong-error-token-or-pulls'}[kind],
                                              src=s, input=w, impl=got, expected=want))
                     continue
